@@ -33,6 +33,9 @@ static uint8_t vx_mapping_kind; static size_t vx_ncols, vx_offset, vx_key_index;
 /*@ENUM csv_mode@*/
 static int vx_mode, vx_level, vx_mark_level; static unsigned vx_lists_open, vx_begin_arrays, vx_end_arrays, vx_end_unquoted, vx_end_quoted2;
 /*@FUNC field_states@*/
+/*@ENUM csv_column_type@*/
+struct vx_ct { uint8_t col_type; size_t level; size_t rep_count; }; static struct vx_ct vx_types[8]; static size_t vx_ntypes, vx_depth;
+/*@FUNC end_value_repeat@*/
 #ifdef VX_CBMC
 static struct csv_parser vx_p; static int vx_ec;
 static void setup(void)
@@ -50,6 +53,9 @@ void h_eof_quoted(void) { setup(); vx_end_quoted = 0; vx_default_arm = false; vx
 void h_field_states(void) { setup(); vx_mode = nondet_int(); vx_level = nondet_int(); vx_mark_level = nondet_int(); vx_lists_open = nondet_u8(); vx_mapping_kind = nondet_u8(); vx_cursor_mode = nondet_bool(); vx_column_index = nondet_size(); vx_begin_arrays = 0; vx_end_arrays = 0; vx_end_unquoted = 0; vx_end_quoted2 = 0;
     __CPROVER_assume(vx_column_index <= SIZE_MAX / 2 && vx_level >= 0 && vx_level <= 1000000 && vx_lists_open <= 1 && (vx_mode == csv_mode_header || vx_mode == csv_mode_data || vx_mode == csv_mode_subfields) && ((vx_mode == csv_mode_subfields) == (vx_lists_open == 1)));
     uint8_t st = nondet_u8(); __CPROVER_assume(st >= csv_parse_state_before_unquoted_string && st <= csv_parse_state_before_last_quoted_field_tail); vx_p.state_ = st; field_states(&vx_p, &vx_ec); }
+void h_end_value_repeat(void) { setup(); vx_level = nondet_int(); vx_mark_level = nondet_int(); vx_mapping_kind = nondet_u8(); vx_cursor_mode = nondet_bool(); vx_ntypes = nondet_size(); vx_offset = nondet_size(); vx_column_index = nondet_size(); vx_depth = nondet_size(); vx_end_arrays = 0; vx_lists_open = nondet_u8();
+    for (int i = 0; i < 8; ++i) { vx_types[i].col_type = nondet_u8(); vx_types[i].level = nondet_size(); vx_types[i].rep_count = nondet_size(); }
+    end_value_repeat(&vx_p); }
 void h_before_value_data(void) { setup(); vx_mapping_kind = nondet_u8(); vx_ncols = nondet_size(); vx_offset = nondet_size(); vx_column_index = nondet_size(); vx_cursor_mode = nondet_bool(); vx_keys = 0; __CPROVER_assume(vx_column_index >= vx_offset && vx_column_index <= SIZE_MAX / 4 && vx_ncols <= SIZE_MAX / 4 && vx_offset <= SIZE_MAX / 4); before_value_data(&vx_p, &vx_ec, nondet_bool()); }
 void h_m_columns_unquoted(void) { setup(); vx_end_values = 0; vx_skips = 0; m_columns_unquoted(&vx_p); }
 void h_m_columns_quoted(void) { setup(); vx_end_values = 0; vx_skips = 0; m_columns_quoted(&vx_p); }
